@@ -168,7 +168,7 @@ def _check_cfg(cfg, table, skip=(), tag=None):
     for name, variants in table.items():
         for kw in variants:
             ident = [tag, name, [list(x) for x in sorted(kw.items())]]
-            if [name, ident[2], klass] in skip:
+            if [name, klass] in skip:
                 continue
             crumb(dict(ident=ident, cfg=cfg))
             try:
@@ -191,8 +191,8 @@ TABLE = [None]
 
 
 def _static_job(args):
-    cfgs, images, thorough, skip = args
-    table = U.algos(thorough)
+    cfgs, images, thorough, only, skip = args
+    table = {k: v for k, v in U.algos(thorough).items() if k == only}
     out = []
     ne = 0
     nontriv = set()
@@ -290,8 +290,8 @@ def hist_class(base, seq):
 
 
 def _history_job(args):
-    bases, depth, thorough, skip = args
-    table = U.algos(False)
+    bases, depth, thorough, only, skip = args
+    table = {k: v for k, v in U.algos(False).items() if k == only}
     # default + cached variant of every algorithm
     variants = []
     for name, vs in table.items():
@@ -312,7 +312,7 @@ def _history_job(args):
             kwl = [list(x) for x in sorted(kw.items())]
             for seq in itertools.product(ops, repeat=depth):
                 klass = hist_class(base, seq)
-                if [name, kwl, klass] in skip:
+                if [name, klass] in skip:
                     continue
                 crumb(dict(ident=[None, name, kwl], klass=klass,
                            cfg=dict(base=base, seq=list(seq))))
@@ -370,9 +370,9 @@ def history_bases(thorough):
 # thread counts used to fill the cache
 # ---------------------------------------------------------------------------
 def _thread_job(args):
-    cfgs, counts, skip = args
+    cfgs, counts, only, skip = args
     from pysph.base.nnps_base import set_number_of_threads
-    table = U.algos(False)
+    table = {k: v for k, v in U.algos(False).items() if k == only}
     out = []
     ne = 0
     for nt in counts:
@@ -386,8 +386,7 @@ def _thread_job(args):
                     continue
                 kw = {'cache': True}
                 kwl = [['cache', True]]
-                if [name, kwl, klass] in skip or \
-                        [name, kwl, sig_of(cfg)] in skip:
+                if [name, klass] in skip or [name, sig_of(cfg)] in skip:
                     continue
                 crumb(dict(ident=[None, name, kwl], klass=klass,
                            cfg=dict(cfg=cfg, threads=nt)))
@@ -454,10 +453,14 @@ def run(ctx):
     nontriv = set()
     # phase 1: a thin pilot slice finds crashing (variant, class) pairs
     # cheaply; phase 2: everything, with those pairs skipped.
+    algo_names = list(U.algos(False))
     pilot = cfgs[::97]
-    pj = [(pilot[i:i + 40], images, ctx.thorough) for i in
-          range(0, len(pilot), 40)]
-    for phase, js in (('pilot', pj), ('full', jobs)):
+    pj = [(pilot[i:i + 40], images, ctx.thorough, a)
+          for a in algo_names for i in range(0, len(pilot), 40)]
+    chunk = max(40, len(cfgs) // (ctx.ncpu * 2))
+    fj = [(cfgs[i:i + chunk], images, ctx.thorough, a)
+          for i in range(0, len(cfgs), chunk) for a in algo_names]
+    for phase, js in (('pilot', pj), ('full', fj)):
         pending = list(range(len(js)))
         rounds = 0
         while pending:
@@ -478,7 +481,7 @@ def run(ctx):
                     c['pts'] = [tuple(p) for p in c['pts']]
                     add(name, 'crash', dict(kwl), r.reason, dict(cfg=c),
                         sig_of(c))
-                    ent = [name, kwl, sig_of(c)]
+                    ent = [name, sig_of(c)]
                     if ent not in skip:
                         skip.append(ent)
                     nxt.append(i)
@@ -487,11 +490,13 @@ def run(ctx):
                     continue
                 n, nc, nt, out = r
                 ne += n
-                ncfg += nc
-                nontriv |= nt
+                if js[i][3] == algo_names[0]:
+                    ncfg += nc
+                    nontriv |= nt
                 for name, kind, kw, det, c in out:
                     add(name, kind, kw, det, dict(cfg=c), sig_of(c))
             pending = nxt
+
     def run_phase(fn, payloads, ncpu, on_ok):
         """Crash-resilient phase: a crashing (variant, class) is recorded,
         added to the skip list and the job re-queued."""
@@ -512,7 +517,7 @@ def run(ctx):
                     tag, name, kwl = cr['ident']
                     add(name, 'crash', dict(kwl), r.reason, cr['cfg'],
                         cr['klass'])
-                    ent = [name, kwl, cr['klass']]
+                    ent = [name, cr['klass']]
                     if ent not in skip:
                         skip.append(ent)
                     nxt.append(i)
@@ -533,8 +538,8 @@ def run(ctx):
         hstat[1] += b
         for name, kind, kw, det, where in out:
             add(name, kind, kw, det, where, 'history')
-    run_phase(_history_job, [([b], depth, ctx.thorough) for b in bases],
-              ctx.ncpu, h_ok)
+    run_phase(_history_job, [([b], depth, ctx.thorough, a) for b in bases
+                             for a in algo_names], ctx.ncpu, h_ok)
     nhist, ntrans = hstat
     # threads
     counts = [1, 2, 3, 4, 8, 16] if ctx.thorough else [2, 3, 16]
@@ -546,7 +551,8 @@ def run(ctx):
         tstat[0] += n
         for name, kind, kw, det, c in out:
             add(name, kind, kw, det, dict(cfg=c), 'threads')
-    run_phase(_thread_job, [(tcfgs[i::8], counts) for i in range(8)],
+    run_phase(_thread_job, [(tcfgs, counts, a) for a in algo_names
+                            if a != 'DictBoxSortNNPS'],
               min(ctx.ncpu, 8), t_ok)
     nthr = tstat[0]
     import shutil as _sh
